@@ -183,6 +183,40 @@ func init() {
 	harnessAPI["vBytesEq"] = func(e *Engine, st *State, a []Value, ci ssa.CallInstruction) Value {
 		return Bool{e.bytesEq(st, a[0].(Slice), a[1].(Slice))}
 	}
+	// vBytesLess: big-endian unsigned comparison of two byte strings of concrete lengths (the shorter
+	// one is zero-extended on the left), as one wide bit-vector comparison
+	harnessAPI["vBytesLess"] = func(e *Engine, st *State, a []Value, ci ssa.CallInstruction) Value {
+		x, y := a[0].(Slice), a[1].(Slice)
+		if !x.Len.IsConst() || !y.Len.IsConst() || x.Len.C > 600 || y.Len.C > 600 {
+			panic(abortSignal{"vBytesLess needs concrete lengths up to 600"})
+		}
+		n := x.Len.C
+		if y.Len.C > n {
+			n = y.Len.C
+		}
+		if n == 0 {
+			return Bool{tFalse}
+		}
+		wide := func(s Slice) *Term {
+			var t *Term
+			pad := n - s.Len.C
+			for i := uint64(0); i < n; i++ {
+				var b *Term
+				if i < pad {
+					b = BVC(8, 0)
+				} else {
+					b = Select(st.obj(s.Obj).Arr, BVAdd(s.Off, U64(i-pad)))
+				}
+				if t == nil {
+					t = b
+				} else {
+					t = Concat(t, b)
+				}
+			}
+			return t
+		}
+		return Bool{BVUlt(wide(x), wide(y))}
+	}
 	harnessAPI["vObserve"] = func(e *Engine, st *State, a []Value, ci ssa.CallInstruction) Value {
 		label := e.cstr(st, a[0])
 		s := label + "="
@@ -870,6 +904,9 @@ func sanitize(s string) string {
 
 func (e *Engine) endPath(st *State, end PathEnd) {
 	e.res.Steps += st.steps
+	if end.Kind == "kill" && os.Getenv("GOSMT_KILLLOG") != "" {
+		fmt.Fprintf(os.Stderr, "KILL %s at %s | %s\n", end.Msg, posOf(st, e), e.stackTrace(st))
+	}
 	switch end.Kind {
 	case "return":
 		e.res.Paths++
